@@ -449,7 +449,9 @@ void execute_c02(const Plan &plan, Verdict &v) {
 
 // ---------------------------------------------------------------- generation
 const char *POOL[] = {"ALPha", "BETa", "GAMMa", "DELTa", "EPS", "ZETAx", "Eta", "THeta", "SYSTem", "ERRor", "NEXT", "COUNt", "VERSion", "STATus", "QUEStionable",
-                      "EVENt", "ENABle", "MEASure", "VOLTage", "DC", "AC", "CONFigure", "TEST", "TREEA", "TREEB", "CHANnellist", "TEXTfunction"};
+                      "EVENt", "ENABle", "MEASure", "VOLTage", "DC", "AC", "CONFigure", "TEST", "TREEA", "TREEB", "CHANnellist", "TEXTfunction",
+                      // underscores and digits are mnemonic characters too (488.2 7.6.1.2): the short form ends at the first lower-case letter
+                      "MAC_ADDRess", "MAC", "IP_ADDRess", "IP", "TTL_Trg", "TTL", "P2Pmode", "CH1Alarm"};
 const size_t NPOOL = sizeof POOL / sizeof POOL[0];
 const char *COMMON[] = {"*AAA", "*AAA?", "*IDN?", "*RST", "*OPC", "*OPC?", "*CLS", "*ESR?"};
 const char *SHIPPED[] = {"*CLS", "*ESE", "*ESE?", "*ESR?", "*IDN?", "*OPC", "*OPC?", "*RST", "*SRE", "*SRE?", "*STB?", "*TST?", "*WAI", "SYSTem:ERRor[:NEXT]?",
